@@ -726,7 +726,7 @@ int main(int argc, char** argv) {
 
     rep.run_cases([&](long idx, Rng& rng) {
         Case cs = genCase(rng, idx);
-        if (idx < 1) rep.sample(cs.deck, 3, 4000);
+        if (idx < 2) rep.sample(idx == 0 ? cs.deck : cs.muxDeck, 2, 3500);
         Checker c{rep, cs};
         rep.cover("unit_system", UNITS[cs.unit].name);
         rep.cover("pvt_regions", std::to_string(cs.nreg));
